@@ -252,7 +252,7 @@ impl Property for C18 {
                 v.push(factory_case(&s, o));
             }
         }
-        for s in ["a:b:c", "a::b", ":a:", "xmlns", "xmlns:p", "xml", "XML", "p:xml"] {
+        for s in ["a:b:c", "a::b", ":a:", "xmlns", "xmlns:p", "xml", "XML", "p:xml", "amp;", "amp;amp", "lt;x", "e;", "e;e", "e; ", "e;<b/>", "#38", "#x26", "&e;", "e ", " e", "gt;gt;", "quot;'", "apos;a"] {
             for o in 0..FACTORY_ORDERS.len() {
                 v.push(factory_case(s, o));
             }
@@ -319,10 +319,20 @@ impl Property for C18 {
                 use xml_dom::DocumentMut;
                 let s = case["s"].as_str().unwrap_or("");
                 let order = FACTORY_ORDERS[case["order"].as_u64().unwrap_or(0) as usize % FACTORY_ORDERS.len()];
-                let doc = match xml_dom::XmlDocument::from_raw("<e/>") {
+                let doc = match xml_dom::XmlDocument::from_raw("<!DOCTYPE e [<!ENTITY e \"v\">]><e/>") {
                     Ok((_, d)) => d,
                     Err(_) => return Verdict::Discard("start-document-rejected".into()),
                 };
+                // an entity reference is made from a Name: whatever is not one (a declared name followed by ';' and more,
+                // a character reference) must be refused; a Name is refused or not depending on the declarations
+                if !chars::is_name(s) {
+                    let got = crate::engine::panics::catch(std::panic::AssertUnwindSafe(|| doc.create_entity_reference(s).is_ok()));
+                    match got {
+                        Err(_) => return Verdict::fail("c18.factory.entity-reference.panic".to_string(), format!("create_entity_reference panics on {:?}", s)),
+                        Ok(true) => return Verdict::fail("c18.factory.entity-reference.accepted.not-a-name".to_string(), format!("create_entity_reference accepts {:?}, which is not a Name", s)),
+                        Ok(false) => obs.label("expect:reject"),
+                    }
+                }
                 // what one call decides must not depend on the calls made before it: two rounds on one document
                 for round in 0..2 {
                     for &k in order.iter() {
